@@ -38,6 +38,7 @@ GNext ==
   \/ \E c \in cbs : Unregister(c) /\ hist' = Append(hist, [act |-> "unregister", cb |-> c, exp |-> Obs])
   \/ \E rk \in {r \in ReqKeys : r[2] \in GIdents} : Expect(rk) /\ hist' = Append(hist, [act |-> "expect", rk |-> rk, exp |-> Obs])
   \/ Tick /\ hist' = Append(hist, [act |-> "tick", exp |-> Obs])
+  \/ Idle /\ hist' = Append(hist, [act |-> "idle", exp |-> Obs])
   \/ \E d \in Descs : Describe(d) /\ hist' = Append(hist, [act |-> "describe", desc |-> d, exp |-> Obs])
 GSpec == GInit /\ [][GNext]_<<vars, hist>>
 
